@@ -299,6 +299,8 @@ pub enum Op {
     EgEncryptProofBlinder, // [pk, msk, blinder] -> [eproof]   trait-level seal_scalar_with_proof with a caller-supplied blinder
     VerifyIn,          // [codec(1), sig in that codec, codec(1), pk in that codec, msg] -> []   decode each component in the codec it arrived in, then Signature::verify on the decoded values (no detour through the byte form)
     EgSealRaw,         // [pk, msk, generator (point of the key group)] -> [c1, c2, message_proof, blinder_proof, challenge]   trait-level BlsElGamal::seal_scalar_with_proof with a caller-supplied generator
+    ScShareOverBase,   // [base point (on the curve, NOT subgroup-checked: what the public fields of a ciphertext can hold), skshare] -> [dshare]   SignCryptCiphertext { u: base, .. }.create_decryption_share(share)
+    PairingRaw,        // [(sig point, pk point) pairs, unchecked] -> [is_identity(product)(1), product over the first half + product over the second half == product over all (1)]   trait-level Pairing::pairing
     MultiSigVerifyKeys, // [msig, msg, pk...] -> []   trait-level BlsSignaturePop::multi_sig_verify over the list of keys
 }
 
